@@ -123,30 +123,49 @@ Definition with_dropped (v : version) (ids : list N) : version :=
   mkV (vid v + 1) (map (fun l => optimize_runs (retain_runs ids l)) (levels v)).
 
 (** mod.rs: the [for (level_idx, level) in self.levels.iter().enumerate()] loop shared
-    verbatim by with_merge and with_moved; [idx] is the index of the head of [ls] *)
-Fixpoint rebuild_from (idx : nat) (ids : list N) (new : list table) (dest : nat)
+    by with_merge and with_moved; [idx] is the index of the head of [ls]; [ins] are the
+    runs put in front of the runs of the destination level ([runs.insert(0, run)] resp.
+    [runs.splice(0..0, moved_runs)]) *)
+Fixpoint rebuild_from (idx : nat) (ids : list N) (ins : list run) (dest : nat)
          (ls : list level) : list level :=
   match ls with
   | [] => []
   | l :: ls' =>
       let runs := retain_runs ids l in
-      let runs := if Nat.eqb idx dest then run_new new ++ runs   (* runs.insert(0, run) *)
-                  else runs in
-      optimize_runs runs :: rebuild_from (S idx) ids new dest ls'
+      let runs := if Nat.eqb idx dest then ins ++ runs else runs in
+      optimize_runs runs :: rebuild_from (S idx) ids ins dest ls'
   end.
 
-(** mod.rs: Version::with_merge.  NB: if [dest >= level_count] the new tables are
+(** mod.rs: Version::with_merge ([if let Some(run) = Run::new(new_tables.to_vec())
+    { runs.insert(0, run) }]).  NB: if [dest >= level_count] the new tables are
     silently not inserted anywhere (the loop never meets [dest_level]). *)
 Definition with_merge (v : version) (old_ids : list N) (new_tables : list table)
            (dest : nat) : version :=
-  mkV (vid v + 1) (rebuild_from O old_ids new_tables dest (levels v)).
+  mkV (vid v + 1) (rebuild_from O old_ids (run_new new_tables) dest (levels v)).
 
-(** mod.rs: Version::with_moved.  [assert_eq!(affected_tables.len(), ids.len())] panics
-    otherwise: no new version, modelled as returning [v] itself (id not bumped). *)
+(** mod.rs: Version::with_moved, [affected_tables.iter().filter_map(|table|
+    Run::new(vec![table.clone()]))]: every moved table is its own run, in iter_tables
+    order *)
+Definition moved_runs (affected : list table) : list run :=
+  flat_map (fun t => run_new [t]) affected.
+
+(** mod.rs: Version::with_moved (current code: [runs.splice(0..0, moved_runs)]).
+    [assert_eq!(affected_tables.len(), ids.len())] panics otherwise: no new version,
+    modelled as returning [v] itself (id not bumped). *)
 Definition with_moved (v : version) (ids : list N) (dest : nat) : version :=
   let affected := filter (id_in ids) (all_tables v) in
   if Nat.eqb (length affected) (length ids)
-  then mkV (vid v + 1) (rebuild_from O ids affected dest (levels v))
+  then mkV (vid v + 1) (rebuild_from O ids (moved_runs affected) dest (levels v))
+  else v.
+
+(** Version::with_moved as it was BEFORE the fix (3.1.9 as shipped):
+    [if let Some(run) = Run::new(affected_tables.clone()) { runs.insert(0, run) }] --
+    all moved tables packed, unsorted and unchecked, into ONE run.  Kept as the
+    documented pre-fix witness (Proofs/Version.v: with_moved_old_bad_run). *)
+Definition with_moved_old (v : version) (ids : list N) (dest : nat) : version :=
+  let affected := filter (id_in ids) (all_tables v) in
+  if Nat.eqb (length affected) (length ids)
+  then mkV (vid v + 1) (rebuild_from O ids (run_new affected) dest (levels v))
   else v.
 
 (** ** Decidable conditions used by the preservation theorems (not in the crate) *)
@@ -190,6 +209,12 @@ Definition merge_choice_ok (v : version) (old_ids : list N) (new : list table)
   && nodup_N_b (map tid (new ++ kept old_ids (all_tables v)))
   && place_ok v old_ids new dest.
 
+(** current with_moved: nothing beyond the placement condition (the relative order of
+    the moved tables among themselves is inherited from [v]) *)
 Definition move_choice_ok (v : version) (ids : list N) (dest : nat) : bool :=
+  place_ok v ids (filter (id_in ids) (all_tables v)) dest.
+
+(** pre-fix with_moved: the moved tables additionally had to form a legal run *)
+Definition move_choice_ok_old (v : version) (ids : list N) (dest : nat) : bool :=
   let affected := filter (id_in ids) (all_tables v) in
   run_disjoint_b affected && place_ok v ids affected dest.
